@@ -36,6 +36,10 @@ type Scenario struct {
 	// history with the maintenance jobs removed; if it disappears, the jobs changed
 	// what clients observe and the hit is a violation of this scenario's property
 	Metamorphic bool
+	// AlsoOwn: rules this scenario's property owns here in addition to its own
+	// (the scenario is built so that these rules can only fire for its reason,
+	// e.g. "not offered" in a scenario about retention)
+	AlsoOwn []string
 }
 
 const Bucket = 100 * time.Millisecond
@@ -526,6 +530,11 @@ func Explore(sc *Scenario, exe string, workerArgs []string, nWorkers int, deadli
 	owns := func(h model.Hit) bool {
 		for _, p := range h.Props {
 			if p == sc.Prop {
+				return true
+			}
+		}
+		for _, r := range sc.AlsoOwn {
+			if r == h.Rule && len(h.Props) > 0 {
 				return true
 			}
 		}
